@@ -62,4 +62,11 @@ CHECKS.update({
             "note": "Trusted: line/column to character offset arithmetic in the harness (re-checked by TLC's InSource on the recorded code points).",
             "technique": "TLA+ grammar with spans (spec/Grammar.tla) + TLC trace validation of recorded tokens, trees and error locations (spec/Trace_Parse.tla)"},
 })
+CHECKS.update({
+    "C13": {"text": "TLC re-lexes the characters of every recorded literal with Lexer.tla (decimal/hex/u integers with range, doubles through exact correctly-rounded decimal->binary64 conversion, quoted/raw/byte/f strings with every escape form) "
+                    "and requires the evaluated value to be the denoted one bit for bit, and a syntax error for out-of-range integers, invalid code points, malformed/truncated escapes and unterminated literals. "
+                    "Inputs: boundary + random 64-bit integers in all spellings (with unary minus), boundary + random-bit doubles in five spellings, strings over a code-point ladder with a random escape per character.",
+            "note": "Trusted: value projection. Spellings outside the modelled fragment (unknown escapes, > 40 digits) are only required not to crash.",
+            "technique": "TLA+ literal lexer and exact binary64 rounding (spec/Lexer.tla, Dbl.tla) + TLC trace validation of recorded literal evaluations (spec/Trace_Lit.tla)"},
+})
 NOT_YET = {}
